@@ -95,12 +95,20 @@ PROPS = {
         engines=[dict(name="rolloutsm", quick=1200, thorough=60000, shard=400, trivial_tags=["no-change", "status-not-written"]),
                  dict(name="brexec", quick=600, thorough=30000, shard=400, trivial_tags=["status-unchanged"]),
                  dict(name="labelpatch", quick=300, thorough=10000, shard=400, trivial_tags=["no-write"]),
-                 dict(name="convert", quick=300, thorough=10000, shard=300, trivial_tags=[])],
-        rule="rolloutsm engine (see C02) with arbitrary nextStepIndex values; brexec, labelpatch, convert engines for the other crash surfaces; every reconcile/call runs under recover()",
-        trusted=["hooks VerifNewReconciler"],
-        assumptions=["validation half of C09 (what the validating webhook accepts/rejects) is not yet modelled: see level_note",
-                     "a BatchRelease owned by a Rollout carries a batchPartition inside its own plan (hand-edited BatchReleases are outside the property)"],
-        explanation="no-panic theorems for the Rollout reconcile (every nextStepIndex), the label patcher and the conversions; no_panic clauses on the implementation",
+                 dict(name="convert", quick=300, thorough=10000, shard=300, trivial_tags=[]),
+                 dict(name="validate", quick=1500, thorough=40000, shard=500, trivial_tags=[])],
+        rule="rolloutsm engine (see C02) with arbitrary nextStepIndex values; brexec, labelpatch, convert engines for the other crash surfaces; every reconcile/call runs under recover(). "
+             "validate engine: generated v1beta1 Rollouts (workload kinds incl. unsupported, canary / blue-green / none / both, enableExtraWorkloadForCanary, 0-4 steps with number / "
+             "percentage / malformed / absent replicas in pure and MIXED type plans incl. decreasing ones, traffic strings incl. 0%, 101%, non-percent, header matches, 0-2 traffic "
+             "routings with missing service / gateway route / negative grace), CREATE and UPDATE against a live object in every phase with one structural field changed (workload "
+             "ref, traffic routing, style, step count, step values), 0-2 other Rollouts possibly on the same workload; v1alpha1 UPDATEs of well-formed specs with the same changes; "
+             "the real RolloutCreateUpdateHandler.Handle decides; non-trivial = every case; distinct = distinct input JSON",
+        trusted=["hooks VerifNewReconciler", "controller-runtime admission decoder and fake client"],
+        assumptions=["a BatchRelease owned by a Rollout carries a batchPartition inside its own plan (hand-edited BatchReleases are outside the property)",
+                     "v1alpha1 spec validation (weights) is exercised only with well-formed specs; only its update rules are modelled",
+                     "the old object of an update is itself a once-admitted Rollout (GetTrafficRouting / GetRollingStyle dereference its strategy)"],
+        explanation="no-panic theorems for the Rollout reconcile (every nextStepIndex), the label patcher and the conversions; three theorems on what the validating webhook admits; "
+                    "the same clause booleans on the implementation",
     ),
     "C10": dict(
         engines=[dict(name="rolloutsm", quick=1200, thorough=60000, shard=400, trivial_tags=["no-change", "status-not-written"])],
@@ -329,8 +337,10 @@ MANIFEST_TEXT = {
         text="Proof (controller half): for every Rollout status satisfying the controller's own invariants and EVERY integer nextStepIndex the Rollout reconcile model does not panic; "
              "the label patcher and the API conversions are total. Each model is tied to the code by its engine, which runs the real code under recover(). One crash found this way "
              "was repaired (F5); F2 and F10 are the corresponding repairs in the patcher and the conversions.",
-        note="Partial: the validating webhook's structural promises (non-empty/non-decreasing steps, immutability while progressing) are not modelled yet; candidate findings F13, "
-             "F16, F17 are not decided by this check.",
+        note="Validation half: a model of validateRollout / validateRolloutUpdate (v1beta1) and of the v1alpha1 update rules is proved to admit only non-empty plans whose steps are "
+             "pairwise ordered per type, one Rollout per workload, and no change of workload reference, traffic routing, style or step count while Progressing or Terminating; it is "
+             "compared with the real handler on every run. This found and repaired F13 (decreasing steps separated by a step of the other type) and F16 (step count changeable "
+             "through v1alpha1). Blue-green reconciles are not in the no-panic model (seed S-C09-1 is missed); F17 is a panic inside the admission handler, recovered by net/http.",
         design_ref="DESIGN.md section 9, C09"),
     "C10": dict(
         text="Proof (dispatch layer): a direct rollback switches the reconcile to Cancelling without touching the BatchRelease, the cancellation order starts with "
